@@ -16,6 +16,7 @@ def run(ctx: Ctx):
     col.floor("g5_pairs", col.counts.get("g5_pairs", 0), 2)
     SC.mode_table(ctx, ["edit_distance", "prefix_edit_distances"], "S2")
     SC.batch_independence(ctx, "S3")
+    SC.no_eos_mask_uses_its_own_extent(ctx, "S3")
     # equal costs: the DP runs with unit costs and both result forms are rescaled by the common cost exactly once
     SC.equal_cost_shortcut(ctx, "S2")
     SC.lens_helper_total(ctx, "S3")
@@ -131,6 +132,7 @@ def _mutants():
     from selftest.mutate import Mutant as M
     S = "_string.py"
     return [
+        M("ref-no-eos-mask-uses-hyp-extent", S, "ref_eq_mask = ref_lens == max_ref_steps", "ref_eq_mask = ref_lens == max_hyp_steps", "no-eos-mask[ref]-compares-with-its-own-extent"),
         M("proxy-through-instance-class", "_wrappers.py", "lambda self, *x, **y: torch.nn.Module.__call__(self, *x, **y)", "lambda self, *x, **y: super(self.__class__, self).__call__(*x, **y)", "dispatch-is-subclass-safe"),
         M("first-eos-on-empty-dimension", S, "if tok.size(dim) == 0:\n        return tok.sum(dim, dtype=torch.long)\n", "", "index-reduction-guarded-for-the-empty-dimension"),
         M("scaled-after-padding", S, "return prefix_ers", "return prefix_ers * mult", "prefix-padding-written-last"),
